@@ -5,6 +5,8 @@ package c12
 import (
 	"encoding/json"
 	"fmt"
+	"go/token"
+	"go/types"
 	"os"
 	"path/filepath"
 	"regexp"
@@ -405,6 +407,11 @@ func (s *state) mintObs(o *output, eff []Plugin, userNames []string) {
 			}
 		}
 		taken = append(taken, calledUserFuncs...)
+		// a candidate that is a keyword or a predeclared identifier is never handed out (fix b3e2f24): for the
+		// model of newName it is one more name that is taken
+		if pf := prefix[g.Plugin]; token.IsKeyword(pf) || types.Universe.Lookup(pf) != nil {
+			taken = append(taken, pf)
+		}
 		s.addLine(&s.mintL, fmt.Sprintf("(mint %s %s %s %s)", hx.Bytes([]byte(prefix[g.Plugin])), hx.Bytes([]byte(g.TyName)), sxStrs(taken), hx.Bytes([]byte(g.Name))))
 	}
 }
